@@ -32,6 +32,7 @@ type Script struct {
 	LoginDelayMs int    `json:"login_delay_ms,omitempty"`
 	DialDelayMs  int    `json:"dial_delay_ms,omitempty"`
 	KickDelayMs  int    `json:"kick_delay_ms,omitempty"`
+	KickKeepOpen bool   `json:"kick_keep_open,omitempty"` // after its Disconnect the backend leaves closing to the proxy
 }
 
 // ReqSpec is one connection request of a round.
@@ -40,6 +41,10 @@ type ReqSpec struct {
 	Indication bool   `json:"indication,omitempty"`
 	DelayUs    int    `json:"delay_us,omitempty"`   // after the barrier
 	TimeoutMs  int    `json:"timeout_ms,omitempty"` // the harness cancels the context after this long (0: only the watchdog does)
+	// Handle: when the ConnectionRequest handle is created with Player.CreateConnectionRequest:
+	// "" right before it is used, "round" before any request of the round runs, "login" right
+	// after the initial join (a handle prepared up front / reused later).
+	Handle string `json:"handle,omitempty"`
 }
 
 // Scenario is one generated case.
@@ -53,7 +58,11 @@ type Scenario struct {
 	KickedSleepUs    int               `json:"kicked_sleep_us,omitempty"`
 	Initial          string            `json:"initial,omitempty"`               // if set: the first server of the try list at login time (a failing one)
 	ConnTimeoutMs    int               `json:"connection_timeout_ms,omitempty"` // proxy's own connection timeout (context of the initial join and of fallbacks), 0 = default 5 s
-	Rounds           [][]ReqSpec       `json:"rounds"`
+	// KickResult: what a KickedFromServerEvent subscriber sets when the CURRENT server kicked
+	// the player ("" = leave Gate's default: next server of the try list): redirect-other,
+	// redirect-same, notify, disconnect.
+	KickResult string      `json:"kick_result,omitempty"`
+	Rounds     [][]ReqSpec `json:"rounds"`
 }
 
 // EffMode is the script of the n-th connection to server as it acts on a client of this
@@ -96,17 +105,19 @@ const (
 
 // ReqObs is the client-boundary record of one request.
 type ReqObs struct {
-	ID        int     `json:"id"` // unique per scenario; also the value put into the request context
-	Spec      ReqSpec `json:"spec"`
-	Target    string  `json:"target"` // resolved
-	CallAt    int64   `json:"call_at"`
-	ReturnAt  int64   `json:"return_at"`
-	CancelAt  int64   `json:"cancel_at,omitempty"` // stamped before the harness cancelled the context
-	Status    string  `json:"status"`
-	Err       string  `json:"err,omitempty"`
-	Reason    string  `json:"reason,omitempty"`
-	CurAtRet  string  `json:"current_server_at_return"`
-	CurReadAt int64   `json:"current_server_read_at"`
+	ID          int     `json:"id"` // unique per scenario; also the value put into the request context
+	Spec        ReqSpec `json:"spec"`
+	Target      string  `json:"target"` // resolved
+	CallAt      int64   `json:"call_at"`
+	ReturnAt    int64   `json:"return_at"`
+	CancelAt    int64   `json:"cancel_at,omitempty"` // stamped before the harness cancelled the context
+	Status      string  `json:"status"`
+	Err         string  `json:"err,omitempty"`
+	Reason      string  `json:"reason,omitempty"`
+	CurAtCreate string  `json:"current_server_when_handle_created,omitempty"`
+	CurAtCall   string  `json:"current_server_at_call,omitempty"`
+	CurAtRet    string  `json:"current_server_at_return"`
+	CurReadAt   int64   `json:"current_server_read_at"`
 }
 
 // ConnObs is the backend-side record of one connection the proxy opened to a fake backend.
@@ -172,8 +183,21 @@ var serverNames = []string{"s0", "s1", "s2", "s3"}
 // EventObs is a proxy event seen by the harness' subscribers.
 type EventObs struct {
 	At     int64  `json:"at"`
-	Kind   string `json:"kind"` // pre-connect, connected, kicked
+	Kind   string `json:"kind"` // pre-connect, connected, kicked, post-connect
 	Server string `json:"server"`
+	// kicked: the kick came from the current server (not during a connection attempt)
+	FromCurrent bool `json:"from_current,omitempty"`
+}
+
+// PostObs is what a ServerPostConnectEvent subscriber saw, taken synchronously inside the
+// subscriber (the proxy fires the event when a join is complete and recorded).
+type PostObs struct {
+	At    int64               `json:"at"`
+	Cur   string              `json:"current_server"`
+	Lists map[string][]string `json:"lists"`
+	// every backend connection that has sent JoinGame so far and that neither the proxy
+	// (stamp taken inside its Close) nor the backend itself has closed
+	OpenJoined []string `json:"open_joined_backend_conns"`
 }
 
 // RoundObs is one round: concurrent requests between two quiescent snapshots.
@@ -188,17 +212,19 @@ type RoundObs struct {
 
 // Observation is everything recorded for one scenario.
 type Observation struct {
-	Sc            Scenario   `json:"scenario"`
-	Player        string     `json:"player"`
-	InitialJoined bool       `json:"initial_joined"`
-	InitialKick   string     `json:"initial_kick,omitempty"`
-	AfterLogin    Snap       `json:"after_login"`
-	Rounds        []RoundObs `json:"rounds"`
-	Events        []EventObs `json:"events"`
-	Conns         []ConnObs  `json:"conns"`
-	ClientCloseAt int64      `json:"client_close_at"`
-	Final         Snap       `json:"final"`
-	Aborted       string     `json:"aborted,omitempty"`
-	Dump          string     `json:"goroutine_dump,omitempty"` // debugging aid (C16_DUMP=1)
-	ClientLog     []string   `json:"client_log,omitempty"`
+	Sc             Scenario   `json:"scenario"`
+	Player         string     `json:"player"`
+	InitialJoined  bool       `json:"initial_joined"`
+	InitialKick    string     `json:"initial_kick,omitempty"`
+	AfterLogin     Snap       `json:"after_login"`
+	Rounds         []RoundObs `json:"rounds"`
+	Events         []EventObs `json:"events"`
+	Posts          []PostObs  `json:"post_connect_snapshots"`
+	PostsDiscarded int        `json:"post_connect_snapshots_discarded"`
+	Conns          []ConnObs  `json:"conns"`
+	ClientCloseAt  int64      `json:"client_close_at"`
+	Final          Snap       `json:"final"`
+	Aborted        string     `json:"aborted,omitempty"`
+	Dump           string     `json:"goroutine_dump,omitempty"` // debugging aid (C16_DUMP=1)
+	ClientLog      []string   `json:"client_log,omitempty"`
 }
